@@ -6,9 +6,19 @@ package observer
 
 // ---- C15: a transaction that cannot be processed does not stop later transactions ----
 // Every transaction of the batch is attempted (namespace lookup performed) whatever happened to the earlier ones.
+//@ spec processable(o *Observer, t txn.SidetreeTxn) bool {
+//@     nsOK(o.ProtocolClientProvider, t.Namespace) && verOK(clientOf(o.ProtocolClientProvider, t.Namespace), t.ProtocolVersion) }
 //@ func (*Observer).process
 //@   requires o != nil && o.Providers != nil && o.ProtocolClientProvider != nil
+//   each transaction is processed by the processor of its own namespace and protocol version ...
+//@   atcall Get transactionTime == txn.ProtocolVersion
+//@   atcall TransactionProcessor this == verOf(clientOf(o.ProtocolClientProvider, txn.Namespace), txn.ProtocolVersion)
+//@   atcall Process sidetreeTxn == txn && this == txnProcOf(verOf(clientOf(o.ProtocolClientProvider, txn.Namespace), txn.ProtocolVersion))
+//   ... and every transaction whose namespace and version resolve is handed to it, whatever happened to earlier ones
 //@   loop 1
 //@     invariant nsLookups == old(nsLookups) + _k
+//@     invariant forall q int :: 0 <= q && q < _k && processable(o, txns[q]) ==> txns[q].AnchorString in procSet
+//@     invariant forall a string :: old(a in procSet) ==> a in procSet
 //@   ensures nsLookups == old(nsLookups) + len(txns)
-//@   modifies nsLookups, txnProcessed
+//@   ensures forall q int :: 0 <= q && q < len(txns) && processable(o, txns[q]) ==> txns[q].AnchorString in procSet
+//@   modifies nsLookups, txnProcessed, procSet
